@@ -8,7 +8,7 @@ core Lean only.
 * `excyc_agree`: the same for the implicitly extrapolated cycle on level 0 (`ExOpsInv`, `ExOpsAgree` list what its extra steps —
   the level-0 smoother of the chosen kind, the extrapolated right-hand side, the extrapolated prolongation — have to satisfy).
 -/
-namespace Cycle
+namespace MGCycle
 variable {V : Type}
 
 /-- agreement of two operator families on arguments satisfying the invariant -/
@@ -120,4 +120,4 @@ theorem excyc_agree (o₁ o₂ : Ops V) (c : Cfg) (P Q : Nat → V → Prop) (A 
   have he : P 1 (coarseOrSolve o₂ c k (c.levels - 2) 1 g) := coarseOrSolve_inv o₂ c P Q I _ k 1 g hL hg
   exact hs _ _ (EI.add_exProlong u1 _ hu1 he)
 
-end Cycle
+end MGCycle
